@@ -72,6 +72,13 @@ Run(p, s) ==
                           IF ~r1.ok THEN r1
                           ELSE LET r2 == Run(p.q, r1.s) IN
                                IF ~r2.ok THEN After(r1, r2) ELSE After(r1, [r2 EXCEPT !.v = r1.v \o r2.v])
+    \* ApTry / ApOption(Map(P, curried f), a): the program P runs first, whatever the plain operand a is; if P fails that is the
+    \* failure; otherwise a failed operand (x = 1: Failure(e3) resp. None) is the failure, with the state P left
+    [] p.k \in {"aptry", "apoption"} ->
+         LET r1 == Run(p.p, s) IN
+         IF ~r1.ok THEN r1
+         ELSE IF p.x = 1 THEN [r1 EXCEPT !.ok = FALSE, !.v = <<>>, !.e = IF p.k = "aptry" THEN "e3" ELSE "none"]
+         ELSE [r1 EXCEPT !.v = r1.v \o <<8>>]
     [] p.k = "seq"     -> RunSeq(p.ps, s, TRUE)
     [] p.k = "concat"  -> RunSeq(p.ps, s, FALSE)
     [] p.k = "trav"    -> RunTrav(p.xs, p.c, s, 1)
